@@ -10548,7 +10548,7 @@ func (l *Lowerer) resolveNamedType(t *parser.NamedType) (ir.TypeHandle, error) {
 	}
 
 	// Texture types without type parameters (e.g., texture_depth_2d, texture_depth_2d_array)
-	if len(t.Name) >= 7 && t.Name[:7] == "texture" {
+	if isTextureTypeName(t.Name) {
 		imgType := l.parseTextureType(t)
 		// When encountering texture_external, generate the special param/transfer types
 		// that backends need for lowering external textures to ordinary textures.
@@ -10617,7 +10617,7 @@ func (l *Lowerer) resolveParameterizedType(t *parser.NamedType) (ir.TypeHandle, 
 	}
 
 	// Texture types: texture_2d<f32>, texture_storage_2d<rgba8unorm, write>, etc.
-	if len(t.Name) >= 7 && t.Name[:7] == "texture" {
+	if isTextureTypeName(t.Name) {
 		imgType := l.parseTextureType(t)
 		if imgType.Class == ir.ImageClassExternal {
 			l.generateExternalTextureTypes()
@@ -13602,6 +13602,20 @@ func (l *Lowerer) isOpaqueResourceType(handle ir.TypeHandle) bool {
 	default:
 		return false
 	}
+}
+
+// textureTypeNames are the predeclared texture types; any other identifier that merely
+// starts with "texture" is an ordinary (possibly undeclared) name.
+var textureTypeNames = map[string]struct{}{
+	"texture_1d": {}, "texture_2d": {}, "texture_2d_array": {}, "texture_3d": {}, "texture_cube": {}, "texture_cube_array": {},
+	"texture_multisampled_2d": {}, "texture_depth_multisampled_2d": {}, "texture_external": {},
+	"texture_storage_1d": {}, "texture_storage_2d": {}, "texture_storage_2d_array": {}, "texture_storage_3d": {},
+	"texture_depth_2d": {}, "texture_depth_2d_array": {}, "texture_depth_cube": {}, "texture_depth_cube_array": {},
+}
+
+func isTextureTypeName(name string) bool {
+	_, ok := textureTypeNames[name]
+	return ok
 }
 
 // parseTextureType parses a texture type specification and returns an ImageType.
